@@ -7,13 +7,14 @@
    tokens (nodes, terms, offsets, value ids are decimals; model term = oxia term + 1; log = t.v,t.v,... or -):
      NE | NT:n:t | EL:l:n=log|n=log|...:rrs | BL:l | AT:l:f:flog[:T|N] | FB:l | CW:l:v | SA:l:f:o | RA:f:t:o:t.v
      RK:l:f:o | AC:l:o | LC:f:l:c | CR:n | SW:from:to | DR
+     DL:n          the node lost its disk and came back with nothing (DiskLoss.xstep; not an action of the base model)
      IS:l:f:k      snapshot install of the first k entries of l's log on f (mapped to SendAppend/RecvAppend/RecvAck/
                    LearnCommit, see below)
      CK:n:term:status:log   checkpoint: the real node n showed this projection here (status N|F|O|L, X = F or O);
                    not a model action
    AT's optional last field says what the real leader did (T = it sent a Truncate RPC, N = it attached the cursor
    without one); it is compared with the extracted attach_decide on the model's state before the Attach is replayed.
-   The step function is CodeModel.step_code (the protocol as the code runs it); attach_consistent is evaluated
+   The step function is DiskLoss.xstep = CodeModel.step_code (the protocol as the code runs it) + DiskLoss; attach_consistent is evaluated
    before every Attach.
      #...          note, ignored *)
 let rec nat_of_int i = if i <= 0 then M.O else M.S (nat_of_int (i - 1))
@@ -93,7 +94,7 @@ let run_trace id ens univ toks =
   let step_all i tok acts =
     List.iter (fun a ->
       if not (M.attach_consistent !w a) then incr inconsistent;
-      match M.step_code !w a with
+      match M.xstep !w (M.Base a) with
       | Some w' -> w := w'; if not (M.acked_survive_b w' univn) then lost := true
       | None -> raise (Stop (Printf.sprintf "refused@%d:%s %s" i tok (dump !w univ)))) acts in
   (try
@@ -118,6 +119,10 @@ let run_trace id ens univ toks =
           raise (Stop (Printf.sprintf "mismatch@%d:%s model=attach_decide:%s impl=%s (T = Truncate sent, N = attached without Truncate) %s"
                          i tok d did (dump !w univ)));
         step_all i tok (parse_action tok)
+      | ["DL"; n] ->
+        (match M.xstep !w (M.DiskLoss (nat_s n)) with
+         | Some w' -> w := w'
+         | None -> raise (Stop (Printf.sprintf "refused@%d:%s %s" i tok (dump !w univ))))
       | ["IS"; l; f; k] ->
         step_all i tok (expand_snapshot !w (int_of_string l) (int_of_string f) (int_of_string k))
       | _ -> step_all i tok (parse_action tok)) toks;
